@@ -238,6 +238,9 @@ def run_if(chk, c2m, model, d, quick):
 
 
 # ------------------------------------------------------------------ macro expansion / conditionals
+RAW = {}      # case index -> text `c2m -E` printed for it (filled by compare_cases, read by run_expand)
+
+
 def pp_outputs(c2m, text, d, name):
     """token lists per tool (after the C09_START marker handling is done by the caller)"""
     p = os.path.join(d, name)
@@ -247,7 +250,33 @@ def pp_outputs(c2m, text, d, name):
                       ('clang', ['clang', '-E', '-P', '-w', '-std=c11'])):
         rc, out, err = vlib.sh(cmd + [p], timeout=120, cwd=d)
         outs[tool] = (rc, M.tokenize(M.strip_line_markers(out)), err[-300:])
+        if tool == 'c2m':
+            parts = re.split(r'C09_CASE_(\d+)\s*;', M.strip_line_markers(out))
+            for k in range(1, len(parts) - 1, 2):
+                RAW[int(parts[k])] = parts[k + 1]
     return outs
+
+
+def separation_lost(words, raw):
+    """words: the model's answer (driver tokens incl. `_` and `/`); raw: what c2m -E printed.  c2m prints a ' ' token
+    as a space and nothing between tokens that have no white space between them, so where the model has a ' ' between
+    two tokens the text must have white space too.  Returns the token pairs whose separation the text lost
+    (None when the text does not spell the model's tokens in order)."""
+    pos, lost, prev, sep = 0, [], None, False
+    for w in words:
+        if w in '_/':
+            sep = sep or w == '_'
+            continue
+        sp = bytes.fromhex(w[1:]).decode('latin-1')
+        q = pos
+        while q < len(raw) and raw[q].isspace():
+            q += 1
+        if not raw.startswith(sp, q):
+            return None
+        if sep and q == pos and prev is not None:
+            lost.append((prev, sp))
+        pos, prev, sep = q + len(sp), sp, False
+    return lost
 
 
 def case_file(cases):
@@ -353,6 +382,7 @@ def run_expand(chk, c2m, model_fn, d, quick):
         queries[idx] = (M.cond_query(tree), 'cond', (names, px))
         idx += 1
     texts = dict(cases)
+    RAW.clear()
     qi = sorted(queries)
     rc, answers, err = vlib.run_lines(model_fn, [queries[i][0] for i in qi], timeout=900)
     if rc != 0 or len(answers) != len(qi):
@@ -403,6 +433,12 @@ def run_expand(chk, c2m, model_fn, d, quick):
                 tag += ':agree-modulo-spacing'
             else:
                 tag += ':agree'
+            if mk == 'fn' and want is not None and not tag.endswith('DISAGREES') and i in RAW:
+                lost = separation_lost(answers[i].split()[1:], RAW[i])
+                if lost:
+                    # two tokens the model keeps apart are printed without white space: the token stream differs as text
+                    tag += ':SEPARATION-LOST'
+                    model_breaks.append((texts[i], 'white space between %r' % (lost[:3],), 'printed adjacent by c2m -E'))
             chk.dist('pp_models', tag)
     for i in [c[0] for c in cases if c[0] in results and results[c[0]][0] == 'ok'][:3]:
         chk.sample('pp case: ' + texts[i].replace('\n', ' \\n ')[:300])
